@@ -20,7 +20,8 @@ LEVEL = "exploration"
 N = {"quick": 640, "thorough": 15000}         # specs
 CLASSES = ["plain", "shape", "occupancy", "flatten", "affine", "cascade", "spacetime", "metrics",
            "occupancy2", "metrics", "occupancy", "double-flatten", "affine2d", "reread",
-           "flatten-lookup", "rewrite", "affine-cascade", "dynflatten2"]
+           "flatten-lookup", "rewrite", "affine-cascade", "dynflatten2",
+           "occ-then-shape"]
 ORDERS = {"quick": 4, "thorough": 8}           # random tie-breaks per spec (+1 real sort)
 TECHNIQUE = ("runtime monitoring: recording wrapper on the FlowGraph the translator uses + seeded "
              "random topological tie-breaks (schedule perturbation); offline order checker over "
